@@ -188,6 +188,12 @@ func (e *escaper) escapeAction(c context, n *parse.ActionNode) context {
 			err:   errorf(ErrEscapeAction, n, n.Line, "cannot escape action %v: a tag name before it is split over several text nodes", n),
 		}
 	}
+	if c.attr.nameSplit {
+		return context{
+			state: stateError,
+			err:   errorf(ErrEscapeAction, n, n.Line, "cannot escape action %v: the attribute name that starts with %q is split over several text nodes", n, c.attr.name),
+		}
+	}
 	if c.state == stateAttr && c.element.name == "link" && c.attr.name == "rel" && c.linkRel == "" {
 		// Part of the rel value is only known at run time.
 		c.linkRel = unknownLinkRel
@@ -352,6 +358,7 @@ func join(a, b context, node parse.Node, nodeName string) context {
 	a.element.names = joinNames(a.element.name, b.element.name, a.element.names, b.element.names)
 	a.attr.names = joinNames(a.attr.name, b.attr.name, a.attr.names, b.attr.names)
 	a.element.nameUnfinished = a.element.nameUnfinished || b.element.nameUnfinished
+	a.attr.nameSplit = a.attr.nameSplit || b.attr.nameSplit
 	a.tagNameSplit = a.tagNameSplit || b.tagNameSplit
 	if a.attr.value != b.attr.value || b.attr.ambiguousValue {
 		a.attr.ambiguousValue = true
@@ -444,6 +451,9 @@ func (e *escaper) escapeBranch(c context, n *parse.BranchNode, nodeName string) 
 			}
 			return false
 		})
+		// An attribute name that the body writes is extended by the next iteration, which
+		// by itself has always been accepted (`<label {{range .B}}lang{{end}}="{{.A}}">`).
+		c1.attr.nameSplit = c0.attr.nameSplit
 		c0 = join(c0, c1, n, nodeName)
 		if c0.state != stateError && !sameEdits {
 			c0 = context{
@@ -513,10 +523,10 @@ func (e *escaper) escapeListConditionally(c context, n *parse.ListNode, filter f
 
 // escapeTemplate escapes a {{template}} call node.
 func (e *escaper) escapeTemplate(c context, n *parse.TemplateNode) context {
-	if c.tagNameSplit {
+	if c.tagNameSplit || c.attr.nameSplit {
 		return context{
 			state: stateError,
-			err:   errorf(ErrEscapeAction, n, n.Line, "cannot escape template call %v: a tag name before it is split over several text nodes", n),
+			err:   errorf(ErrEscapeAction, n, n.Line, "cannot escape template call %v: a tag or attribute name before it is split over several text nodes", n),
 		}
 	}
 	c, name := e.escapeTree(c, n, n.Name, n.Line)
